@@ -23,8 +23,8 @@ import mirdump      # noqa: E402
 from engine import Unsupported  # noqa: E402
 
 CACHE = os.path.join(ROOT, '.cache')
-EVID = os.path.join(ROOT, 'evidence')
-REPLAYS = os.path.join(ROOT, 'replays')
+EVID = os.environ.get('VERIF_EVID', os.path.join(ROOT, 'evidence'))      # scratch runs (seeded mutants) write elsewhere
+REPLAYS = os.environ.get('VERIF_REPLAYS', os.path.join(ROOT, 'replays'))
 
 
 def load_known():
@@ -115,8 +115,8 @@ def main():
     try:
         ctx = Ctx(args.pid, tier, seed)
         res = registry.CHECKS[args.pid](ctx)
-    except Unsupported as e:
-        print(f"INCONCLUSIVE property={args.pid}: engine does not support something in the current tree: {e}")
+    except (Unsupported, RuntimeError, AssertionError, KeyError, IndexError, TypeError, ValueError, AttributeError, RecursionError) as e:
+        print(f"INCONCLUSIVE property={args.pid}: engine does not support something in the current tree: {type(e).__name__}: {e}")
         traceback.print_exc()
         write_evidence(evid_path, args.pid, tier, seed, dict(evaluations=0, distinct_nontrivial=0, samples=[],
                        explanation=f"inconclusive: {e}"), [], time.time() - t0, 0, inconclusive=True)
@@ -171,4 +171,12 @@ def write_evidence(path, pid, tier, seed, cov, assumptions, wall, violations, le
 
 
 if __name__ == '__main__':
-    sys.exit(main())
+    try:
+        rc = main()
+    except SystemExit:
+        raise
+    except BaseException as ex:      # an internal error is never a verdict
+        traceback.print_exc()
+        print(f"INCONCLUSIVE: internal error of the checker: {type(ex).__name__}: {ex}")
+        rc = 2
+    sys.exit(rc)
